@@ -1,24 +1,24 @@
 package main
 
 import (
-	"verif.local/mc/harness/c14"
 	"verif.local/mc/harness/c01"
-	"verif.local/mc/harness/c15"
-	"verif.local/mc/harness/c13"
-	"verif.local/mc/harness/c04"
 	"verif.local/mc/harness/c02"
 	"verif.local/mc/harness/c03"
-	"verif.local/mc/harness/c06"
-	"verif.local/mc/harness/c20"
+	"verif.local/mc/harness/c04"
 	"verif.local/mc/harness/c05"
-	"verif.local/mc/harness/c12"
-	"verif.local/mc/harness/c10"
+	"verif.local/mc/harness/c06"
 	"verif.local/mc/harness/c07"
 	"verif.local/mc/harness/c08"
 	"verif.local/mc/harness/c09"
+	"verif.local/mc/harness/c10"
+	"verif.local/mc/harness/c12"
+	"verif.local/mc/harness/c13"
+	"verif.local/mc/harness/c14"
+	"verif.local/mc/harness/c15"
 	"verif.local/mc/harness/c17"
 	"verif.local/mc/harness/c18"
 	"verif.local/mc/harness/c19"
+	"verif.local/mc/harness/c20"
 )
 
 func init() {
